@@ -27,16 +27,32 @@ def field_named(e, name):
     return any(n["k"] == "Field" and n["name"] == name for n in walk(e))
 
 
-def norm_cmp(n):
+def cc_aliases(body, field="cc"):
+    """Locals that merely copy the call generation: `let x = <..>.cc;`."""
+    out = set()
+    for n in walk(body):
+        if n["k"] == "Let" and n["pat"]["k"] == "PBind" and "init" in n:
+            i = n["init"]
+            while i["k"] in ("AddrOf",) or (i["k"] == "Unary" and i.get("op") == "Deref"):
+                i = i["a"]
+            if i["k"] == "Field" and i["name"] == field:
+                out.add(n["pat"]["name"])
+    return out
+
+
+def norm_cmp(n, aliases=frozenset()):
     """Normalise a comparison node to (left_kind, op, right_kind) with kinds in
     {'cc','Finite(cc)','stamp:usize','stamp:Death'}; None if it does not involve cc."""
     if n["k"] != "Binary" or n["op"] not in ("Lt", "Le", "Gt", "Ge", "Eq", "Ne"):
         return None
 
+    def is_cc(e):
+        return (e["k"] == "Field" and e["name"] == "cc") or (e["k"] == "Path" and res_name(e) in aliases)
+
     def kind(e):
         if e["k"] == "Call" and (e.get("ctor") or "").endswith("Death::Finite"):
-            return "Finite(cc)" if field_named(e, "cc") else "Finite(?)"
-        if e["k"] == "Field" and e["name"] == "cc":
+            return "Finite(cc)" if any(is_cc(x) for x in walk(e)) else "Finite(?)"
+        if is_cc(e):
             return "cc"
         t = e.get("ty", "")
         if e["k"] == "Path" and "local" in (e.get("res") or {}):
@@ -125,13 +141,14 @@ def run(ctx, R):
         if it["kind"] not in ("Fn", "AssocFn") or it["file"] not in files:
             continue
         h = F.hir(p)
+        al = frozenset(cc_aliases(h["body"]))
         # group cc comparisons by their enclosing conjunction / condition
         seen_nodes = set()
         for n in walk(h["body"]):
             if n["k"] == "Binary" and n["op"] == "And":
                 if id(n) in seen_nodes:
                     continue
-                comps = [norm_cmp(x) for x in walk(n)]
+                comps = [norm_cmp(x, al) for x in walk(n)]
                 for x in walk(n):
                     seen_nodes.add(id(x))
                 comps = {c for c in comps if c}
@@ -144,7 +161,7 @@ def run(ctx, R):
         for n in walk(h["body"]):
             if id(n) in seen_nodes:
                 continue
-            c = norm_cmp(n)
+            c = norm_cmp(n, al)
             if c:
                 n_sites += 1
                 R.ob("C09:liveness:%s@%d:lone" % (short(p), n["ln"] - it["line"]), False,
@@ -208,7 +225,8 @@ def run(ctx, R):
         for n in walk(h["body"]):
             if n["k"] == "Call" and (n.get("ctor") or "").endswith("Death::Finite"):
                 n_fin += 1
-                src_ok = field_named(n, "cc") or field_named(n, "global_clock")
+                al = cc_aliases(h["body"]) | cc_aliases(h["body"], "global_clock")
+                src_ok = field_named(n, "cc") or field_named(n, "global_clock") or any(x["k"] == "Path" and res_name(x) in al for x in walk(n))
                 R.ob("C09:death-stamp:%s@%d" % (short(p), n["ln"] - it["line"]), src_ok,
                      "Death::Finite(..) must be built from the clock (retraction) or from cc (liveness test)", "%s (line %s)" % (F.where(p), n["ln"]))
     R.floor("Death::Finite constructions", n_fin, 7)
